@@ -290,14 +290,19 @@ func (p *Program) prove(pr *Prover, re *regexp.Regexp, prop string, verbose bool
 				ivc := newVC(p.u, p.cs, "lemmas")
 				ivc.declare("R0", "Bool")
 				ivc.assume("R0")
+				// abstract=<names>: the named predicates are treated as uninterpreted in this proof (a lemma proved for
+				// arbitrary predicates holds for the defined ones); keeps the induction problem small
+				restore := p.abstractPreds(ax.Props)
 				env := &SpecEnv{vc: ivc, vars: map[string]TV{}, st: State{}}
 				tv, err := env.tr(ax.E)
 				if err != nil {
+					restore()
 					res.Errors = append(res.Errors, fmt.Sprintf("lemmas: %s:%d: %v", ax.File, ax.Line, err))
 					continue
 				}
 				defs, err := p.defEquations(ivc, ax.E)
 				if err != nil {
+					restore()
 					res.Errors = append(res.Errors, fmt.Sprintf("lemmas: %s:%d: %v", ax.File, ax.Line, err))
 					continue
 				}
@@ -309,16 +314,19 @@ func (p *Program) prove(pr *Prover, re *regexp.Regexp, prop string, verbose bool
 				o := &Oblig{Name: "lemmas/" + lbl, Kind: "lemma", Props: ax.Props, Guard: "R0", Goal: tv.T, Clause: ax.Src, Where: fmt.Sprintf("%s:%d", ax.File, ax.Line)}
 				ivc.oblige(o)
 				if prop != "" && !hasProp(o.Props, prop) {
+					restore()
 					continue
 				}
 				if p.oblRe != nil && !p.oblRe.MatchString(o.Name) {
+					restore()
 					continue
 				}
 				if !containsStr(res.Functions, "lemmas") {
 					res.Functions = append(res.Functions, "lemmas")
 				}
 				iprelude := ivc.prelude(p.cs.RawSMT)
-				axioms := p.axiomsForLemma(ivc, o)
+				axioms := p.axiomsForInduction(ivc, o, ax.E)
+				restore()
 				jobs = append(jobs, func() *Verdict { return pr.dischargeInduct(ivc, o, iprelude, axioms) })
 				continue
 			}
@@ -443,7 +451,7 @@ func (p *Program) prove(pr *Prover, re *regexp.Regexp, prop string, verbose bool
 }
 
 // tags that are not property ids: tier / proof-method / visibility markers of a clause
-var pseudoTag = map[string]bool{"thorough": true, "scoped": true, "induct": true}
+var pseudoTag = map[string]bool{"thorough": true, "scoped": true, "induct": true, "lemmaonly": true}
 
 func hasProp(props []string, p string) bool {
 	for _, q := range props {
@@ -468,7 +476,10 @@ func (p *Program) axiomsFor(vc *VC) []string {
 			if included[idx] {
 				continue
 			}
-			if ax.Kind == "lemma" && !hasTriggers(ax.E) {
+			if !revealedIn(ax.Props, vc.Func) {
+				continue // a definition marked reveal=<regexp> is opaque except in the functions named
+			}
+			if ax.Kind == "lemma" && (!hasTriggers(ax.E) || hasProp(ax.Props, "lemmaonly")) {
 				// a lemma without explicit triggers is a theorem in its own right (symmetry of the matching rule, ...),
 				// not written for use by E-matching: it is not handed to the VCs (auto-selected patterns over pairs of
 				// terms instantiate quadratically)
@@ -530,6 +541,19 @@ func (p *Program) axiomsFor(vc *VC) []string {
 	return out
 }
 
+// revealedIn: an axiom tagged reveal=<regexp> is given only to the VCs of functions whose name matches.
+func revealedIn(props []string, fn string) bool {
+	for _, t := range props {
+		if strings.HasPrefix(t, "reveal=") {
+			re, err := regexp.Compile(strings.TrimPrefix(t, "reveal="))
+			if err != nil || !re.MatchString(fn) {
+				return false
+			}
+		}
+	}
+	return true
+}
+
 func hasTriggers(e Expr) bool {
 	q, ok := e.(*EQuant)
 	return ok && len(q.Triggers) > 0
@@ -555,6 +579,114 @@ func (p *Program) axiomsForLemma(vc *VC, o *Oblig) []string {
 			continue
 		}
 		out = append(out, tv.T)
+	}
+	return out
+}
+
+// abstractPreds turns the predicates named by an abstract=<a|b> tag into uninterpreted spec functions and returns
+// the function that undoes it.
+func (p *Program) abstractPreds(props []string) func() {
+	var names []string
+	for _, t := range props {
+		if strings.HasPrefix(t, "abstract=") {
+			names = append(names, strings.Split(strings.TrimPrefix(t, "abstract="), "|")...)
+		}
+	}
+	saved := map[string]*Pred{}
+	for _, n := range names {
+		pd, ok := p.cs.Preds[n]
+		if !ok {
+			continue
+		}
+		saved[n] = pd
+		delete(p.cs.Preds, n)
+		p.cs.SpecFns[n] = &SpecFn{Name: n, Params: pd.Params, Ret: &TypeExpr{Name: "bool"}}
+	}
+	return func() {
+		for n, pd := range saved {
+			delete(p.cs.SpecFns, n)
+			p.cs.Preds[n] = pd
+		}
+	}
+}
+
+// axiomsForInduction: as axiomsForLemma, restricted to the axioms connected to the lemma through shared spec symbols
+// (an induction proof is found on a small script or not at all).
+func (p *Program) axiomsForInduction(vc *VC, o *Oblig, lemma Expr) []string {
+	self := len(p.cs.Axioms)
+	for i, ax := range p.cs.Axioms {
+		if ax.Kind == "lemma" && fmt.Sprintf("%s:%d", ax.File, ax.Line) == o.Where {
+			self = i
+		}
+	}
+	syms := map[string]bool{}
+	var addSyms func(e Expr)
+	addSyms = func(e Expr) {
+		for _, s := range axiomSymbols(e) {
+			if syms[s] {
+				continue
+			}
+			syms[s] = true
+			if pd, ok := p.cs.Preds[s]; ok {
+				addSyms(pd.Body)
+			}
+			if f, ok := p.cs.SpecFns[s]; ok && f.Body != nil {
+				addSyms(f.Body)
+			}
+		}
+	}
+	addSyms(lemma)
+	isSpec := func(s string) bool {
+		if _, ok := p.cs.SpecFns[s]; ok {
+			return p.cs.SpecFns[s].SMT == ""
+		}
+		return false
+	}
+	used := map[int]bool{}
+	for changed := true; changed; {
+		changed = false
+		for i, ax := range p.cs.Axioms {
+			if used[i] || (ax.Kind != "axiom" && !(ax.Kind == "lemma" && i < self && hasTriggers(ax.E))) {
+				continue
+			}
+			// an axiom is relevant when every opaque spec function of one of its triggers is already in play
+			q, ok := ax.E.(*EQuant)
+			if !ok || len(q.Triggers) == 0 {
+				continue
+			}
+			fire := false
+			for _, trig := range q.Triggers {
+				all, any := true, false
+				for _, te := range trig {
+					for _, s := range axiomSymbols(te) {
+						if isSpec(s) {
+							any = true
+							if !syms[s] {
+								all = false
+							}
+						}
+					}
+				}
+				if all && any {
+					fire = true
+				}
+			}
+			if fire {
+				used[i] = true
+				changed = true
+				addSyms(ax.E)
+			}
+		}
+	}
+	var out []string
+	for i, ax := range p.cs.Axioms {
+		if !used[i] {
+			continue
+		}
+		env := &SpecEnv{vc: vc, vars: map[string]TV{}, st: State{}}
+		if tv, err := env.tr(ax.E); err == nil {
+			out = append(out, tv.T)
+		}
 	}
 	return out
 }
